@@ -126,6 +126,17 @@ class RealServer:
             kw["locations"] = locations
         self.cfg = ServerConfig(host="127.0.0.1", port=self.port, document_root=root, require_client_cert=(backend == "pyopenssl"), **kw)
         self.loop = asyncio.new_event_loop()
+        if material == "bindFault":
+            import errno
+            real_create = self.loop.create_server
+            state = {"n": 0}
+
+            async def flaky_create_server(*a, **kw):
+                state["n"] += 1
+                if state["n"] == 1:
+                    raise OSError(errno.EADDRNOTAVAIL, "Cannot assign requested address")
+                return await real_create(*a, **kw)
+            self.loop.create_server = flaky_create_server
         self.err = None
         self.thread = threading.Thread(target=self._run, daemon=True)
         self.thread.start()
@@ -320,7 +331,7 @@ def live(rep, rnd, thorough):
                         got = send_plain(srv.port, data)
                         if re.match(rb"^\d\d [^\r\n]*\r\n", got) or SENT.encode() in got:
                             rep.violation({"formula": "PlaintextGetsNothing", "backend": p["backend"], "cert": p["cert"], "material": p["material"]},
-                                          "%s backend with certificate/key files that cannot be loaded (%s): the server came up and %s without TLS obtained %r" % (
+                                          "%s backend, start-up under a fault (%s: certificate / key files that cannot be loaded, or a failing first bind): the server came up and %s without TLS obtained %r" % (
                                               p["backend"], p["material"], inp["kind"], got[:60]), None)
                     continue
                 if inp["kind"] == "tls":
@@ -347,6 +358,7 @@ def live(rep, rnd, thorough):
                                           p["backend"], p["cert"], inp["kind"], got[:60]), None)
             else:
                 n += client_case(rep, p["mode"], inp["max"], want, cert)
+        optimised_interpreter(rep, cert, root)
         rep.add("live_version_cases", n)
         rep.add("traces_validated_against_impl", n)
         rep.sample({"live_c20_cases": [{"path": dict(s["path"]), "input": dict(s["input"]), "expected": dict(s["out"])} for s in cases[:4]]})
@@ -358,6 +370,56 @@ def live(rep, rnd, thorough):
         cert.remove()
         other.remove()
         shutil.rmtree(root, ignore_errors=True)
+
+
+def optimised_interpreter(rep, cert, root):
+    """The same servers in an interpreter started with -O (assert statements are stripped; PYTHONOPTIMIZE is a common
+    deployment setting): the version floor and the TLS-only rule hold there too.  The child runs the real start_server with
+    the harness's security-level-0 wrappers installed, the parent probes it."""
+    import subprocess
+    n = 0
+    for backend in ("stdlib", "pyopenssl"):
+        port = free_port()
+        env = dict(os.environ)
+        env["PYTHONOPTIMIZE"] = "1"
+        child = subprocess.Popen([sys.executable, "-O", os.path.abspath(__file__), "--child-server", backend, str(port), root, cert.certfile, cert.keyfile],
+                                 env=env, stdout=subprocess.DEVNULL, stderr=subprocess.PIPE)
+        try:
+            for _ in range(200):
+                if child.poll() is not None:
+                    raise tlc.TLCError("optimised child server exited: %r" % child.stderr.read()[-400:])
+                try:
+                    socket.create_connection(("127.0.0.1", port), timeout=0.2).close()
+                    break
+                except OSError:
+                    time.sleep(0.05)
+            else:
+                raise tlc.TLCError("optimised child server did not listen")
+            for maxv in (1, 2, 3, 4):
+                ver, got = try_handshake(port, maxv)
+                n += 1
+                if ver in (1, 2):
+                    rep.violation({"formula": "NoOldVersion", "backend": backend, "optimised": True},
+                                  "%s backend in an interpreter started with -O completed a TLS 1.%d handshake and answered %r" % (backend, ver - 1, got[:30]), None)
+                elif maxv >= 3 and ver != maxv:
+                    rep.violation({"formula": "ModernAccepted", "backend": backend, "optimised": True},
+                                  "%s backend under -O: peer offering up to TLS 1.%d negotiated %s" % (backend, maxv - 1, ver), None)
+            got = send_plain(port, b"gemini://localhost/\r\n")
+            n += 1
+            if re.match(rb"^\d\d [^\r\n]*\r\n", got) or SENT.encode() in got:
+                rep.violation({"formula": "PlaintextGetsNothing", "backend": backend, "optimised": True},
+                              "%s backend under -O: a request without TLS obtained %r" % (backend, got[:60]), None)
+        finally:
+            child.kill()
+            child.wait(5)
+    rep.add("optimised_interpreter_cases", n)
+
+
+def child_server(backend, port, root, certfile, keyfile):
+    install_permissive_wrappers()
+    cfg = ServerConfig(host="127.0.0.1", port=int(port), document_root=root, require_client_cert=(backend == "pyopenssl"),
+                       certfile=certfile, keyfile=keyfile)
+    asyncio.run(srvmod.start_server(cfg, enable_rate_limiting=False, log_level="CRITICAL"))
 
 
 def client_case(rep, mode, server_max, want, cert):
@@ -416,6 +478,10 @@ def main(pid="C20", rep=None, finish=True):
     except tlc.TLCError as e:
         evidence.machinery_failure(pid, e)
 
+
+if __name__ == "__main__" and len(sys.argv) > 1 and sys.argv[1] == "--child-server":
+    child_server(*sys.argv[2:7])
+    sys.exit(0)
 
 if __name__ == "__main__":
     main()
